@@ -490,6 +490,9 @@ class Scaling(Interp):
                 if a.m is not None and a.m == b.m:
                     return SV("rnd", a.m * Mono.const(2), cplx=True)
                 return unk(f"real and imaginary noise with different variances {a.show()} / {b.show()}")
+            if (a.kind == "rnd" and b.kind == "zero") or (a.kind == "zero" and b.kind == "rnd"):
+                r_ = a if a.kind == "rnd" else b
+                return SV("rnd", r_.m, cplx=True)  # noise on one quadrature component only: total variance = that component's
             if a.kind in ("sig", "sigpart") and b.kind == "zero":
                 return SV("sig", a.m, src=a.src)
             if a.kind in ("sig", "sigpart") and b.kind in ("sig", "sigpart") and a.m is not None and a.m == b.m:
